@@ -791,9 +791,10 @@ class IteratorQueue(IterableQueue[_ValueT]):
         logging.debug(
             'chainable: %s', f'"{self.name}" enqueue done, notify all'
         )
-    if self.exception is not None:
-      # A failed stream is over: what feeds its enqueuers is stopped as well,
-      # its threads are otherwise blocked on their full queue for good.
+    if self.enqueue_done:
+      # The stream is over (failed, stopped, or every enqueuer is done): what
+      # feeds its enqueuers is stopped as well, its threads are otherwise
+      # blocked on their full queue for good.
       for other in self._stopped_with:
         other.maybe_stop()
 
